@@ -25,6 +25,8 @@ package lisp
 //@   at "ast, e = macroexpand(ctx, ast, env)" assert ctx == nil || !done(ctx) @C07
 //@   loop 1 readsat "defer func() { _, _ = do(ctx, finallyDo, 0, 0, env) }()"
 //@   loop 1 readsat "let_env := NewSubordinateEnv(env)"
+//@   at "defer func() { _, _ = do(ctx, finallyDo, 0, 0, env) }()" assert tryShape(ast, tryDo, catchDo, catchBind, finallyDo) @C01,C03,C08,C12,C18
+//@   at "defer func() { _, _ = do(ctx, finallyDo, 0, 0, env) }()" assert tryArity(ast) @C01,C03,C08,C12,C18
 //@   loop 1 continue evalOut(ast, env, world())
 //@   loop 1 result out(res, e, world())
 //@   loop 1 invariant validEnvVal(env)
@@ -180,11 +182,12 @@ package lisp
 //@ spec bodyOf(y MalType, from int, env EnvType, w World, o Outcome) bool = ite(len(lst(y)) == from, o == evalOut(nil, env, w), ite(!seqOK(doSub(y, from, -1), len(doSub(y, from, -1)), env, w), firstErr(doSub(y, from, -1), env, w, o), o == evalOut(lst(y)[len(lst(y))-1], env, seqW(doSub(y, from, -1), len(doSub(y, from, -1)), env, w))))
 //@ spec letStepThorough(y MalType, env EnvType, w World, o Outcome) bool = ite(!(is(arg(y, 1), List) || is(arg(y, 1), Vector)) || len(seqOf(arg(y, 1))) % 2 != 0, failure(o, scopeW(w, envp(env))), ite(!letOK(seqOf(arg(y, 1)), len(seqOf(arg(y, 1))), val(scopeR(w, envp(env))), scopeW(w, envp(env))), letFail(seqOf(arg(y, 1)), val(scopeR(w, envp(env))), scopeW(w, envp(env)), o), bodyOf(y, 2, val(scopeR(w, envp(env))), letW(seqOf(arg(y, 1)), len(seqOf(arg(y, 1))), val(scopeR(w, envp(env))), scopeW(w, envp(env))), o)))
 // The full step relation of let (letStepThorough above) replaces letStep in the thorough tier only
-// (5-30 s per case). That of try (tryStepFull, with the cut lemma tryShape) is written down but not
-// part of any checked relation: z3/cvc5 need more than 60 s for three of its cases. What is checked for let: the shape
+// (5-30 s per case), and so does that of try (tryStepThorough, with the cut lemmas tryShapeThorough
+// and tryArityThorough asserted after the body has run): 5-60 s per case, all discharged with the
+// thorough time-outs. What is checked for let: the shape
 // errors, that a new scope is opened first, and (loop 2 invariant) that the bindings are evaluated
 // in order, each in the new scope with the earlier ones visible; a let that succeeds continues the
-// loop (tail position) rather than returning. For try: the empty form only.
+// loop (tail position) rather than returning. For try (quick tier): the empty form only.
 //@ spec letStep(y MalType, env EnvType, w World, o Outcome) bool = ite(!(is(arg(y, 1), List) || is(arg(y, 1), Vector)) || len(seqOf(arg(y, 1))) % 2 != 0, failure(o, scopeW(w, envp(env))), ite(outE(o) != nil, true, tail(true)))
 //@ spec tryStep(y MalType, env EnvType, w World, o Outcome) bool = ite(len(lst(y)) == 1, o == out(nil, nil, w), true)
 //@ spec firstName(x MalType) string = ite(x != nil && is(x, List) && len(lst(x)) > 0 && is(lst(x)[0], Symbol), lst(x)[0].(Symbol).Val, "")
@@ -196,5 +199,9 @@ package lisp
 //@ spec lastOf(y MalType) MalType = lst(y)[len(lst(y))-1]
 //@ spec prelastOf(y MalType) MalType = lst(y)[len(lst(y))-2]
 //@ spec listOf(xs []MalType) MalType = val(List{Val: xs})
-//@ spec tryShape(y MalType, tryDo MalType, catchDo MalType, catchBind MalType, finallyDo MalType) bool = ite(firstName(lastOf(y)) == "catch", tryDo == listOf(lst(y)[1:len(lst(y))-1]) && catchDo == listOf(lst(lastOf(y))[2:]) && catchBind == lst(lastOf(y))[1] && finallyDo == nil, ite(firstName(lastOf(y)) == "finally", finallyDo == listOf(lst(lastOf(y))[1:]) && ite(len(lst(y)) >= 3 && firstName(prelastOf(y)) == "catch", tryDo == listOf(lst(y)[1:len(lst(y))-2]) && catchDo == listOf(lst(prelastOf(y))[2:]) && catchBind == lst(prelastOf(y))[1], tryDo == listOf(lst(y)[1:len(lst(y))-1]) && catchDo == nil), tryDo == listOf(lst(y)[1:]) && catchDo == nil && finallyDo == nil))
-//@ spec tryStepFull(y MalType, env EnvType, w World, o Outcome) bool = ite(len(lst(y)) == 1, o == out(nil, nil, w), ite(firstName(lastOf(y)) == "catch", ite(len(lst(lastOf(y))) < 3, failure(o, w), tryRel(lst(y)[1:len(lst(y))-1], true, lst(lastOf(y))[1], lst(lastOf(y))[2:], false, lst(y)[0:0], env, w, o)), ite(firstName(lastOf(y)) == "finally", ite(len(lst(y)) >= 3 && firstName(prelastOf(y)) == "catch", ite(len(lst(prelastOf(y))) < 3, failure(o, w), tryRel(lst(y)[1:len(lst(y))-2], true, lst(prelastOf(y))[1], lst(prelastOf(y))[2:], true, lst(lastOf(y))[1:], env, w, o)), tryRel(lst(y)[1:len(lst(y))-1], false, nil, lst(y)[0:0], true, lst(lastOf(y))[1:], env, w, o)), tryRel(lst(y)[1:], false, nil, lst(y)[0:0], false, lst(y)[0:0], env, w, o))))
+//@ spec tryArityThorough(y MalType) bool = len(lst(y)) >= 2 && implies(firstName(lastOf(y)) == "catch", len(lst(lastOf(y))) >= 3) && implies(firstName(lastOf(y)) == "finally" && len(lst(y)) >= 3 && firstName(prelastOf(y)) == "catch", len(lst(prelastOf(y))) >= 3)
+// quick tier: the cut lemmas are trivial and the try relation covers the empty form only
+//@ spec tryShape(y MalType, tryDo MalType, catchDo MalType, catchBind MalType, finallyDo MalType) bool = true
+//@ spec tryArity(y MalType) bool = true
+//@ spec tryShapeThorough(y MalType, tryDo MalType, catchDo MalType, catchBind MalType, finallyDo MalType) bool = ite(firstName(lastOf(y)) == "catch", tryDo == listOf(lst(y)[1:len(lst(y))-1]) && catchDo == listOf(lst(lastOf(y))[2:]) && catchBind == lst(lastOf(y))[1] && finallyDo == nil, ite(firstName(lastOf(y)) == "finally", finallyDo == listOf(lst(lastOf(y))[1:]) && ite(len(lst(y)) >= 3 && firstName(prelastOf(y)) == "catch", tryDo == listOf(lst(y)[1:len(lst(y))-2]) && catchDo == listOf(lst(prelastOf(y))[2:]) && catchBind == lst(prelastOf(y))[1], tryDo == listOf(lst(y)[1:len(lst(y))-1]) && catchDo == nil), tryDo == listOf(lst(y)[1:]) && catchDo == nil && finallyDo == nil))
+//@ spec tryStepThorough(y MalType, env EnvType, w World, o Outcome) bool = ite(len(lst(y)) == 1, o == out(nil, nil, w), ite(firstName(lastOf(y)) == "catch", ite(len(lst(lastOf(y))) < 3, failure(o, w), tryRel(lst(y)[1:len(lst(y))-1], true, lst(lastOf(y))[1], lst(lastOf(y))[2:], false, lst(y)[0:0], env, w, o)), ite(firstName(lastOf(y)) == "finally", ite(len(lst(y)) >= 3 && firstName(prelastOf(y)) == "catch", ite(len(lst(prelastOf(y))) < 3, failure(o, w), tryRel(lst(y)[1:len(lst(y))-2], true, lst(prelastOf(y))[1], lst(prelastOf(y))[2:], true, lst(lastOf(y))[1:], env, w, o)), tryRel(lst(y)[1:len(lst(y))-1], false, nil, lst(y)[0:0], true, lst(lastOf(y))[1:], env, w, o)), tryRel(lst(y)[1:], false, nil, lst(y)[0:0], false, lst(y)[0:0], env, w, o))))
